@@ -823,10 +823,14 @@ type SubCase struct {
 
 var specSub = pbt.Register(pbt.Spec[SubCase]{
 	Prop: "C04", Name: "returned-bytes-are-input-bytes",
-	Rule:  "random buffers and byte-string reads (ReadBytes(n), ReadBlob, ReadShortBytes, ReadIntBytes, ReadText) with n around the buffer length: a read that returns must return exactly the next bytes of the input and advance Available() by the bytes consumed; a read that needs more than is there must panic; non-trivial = n within 2 of the bytes available; distinct by (buffer, kind, n)",
+	Rule:  "random buffers and byte-string reads (ReadBytes(n), ReadBlob, ReadShortBytes, ReadIntBytes, ReadText) with n around the buffer length: a read that returns must return exactly the next bytes of the input and advance Available() by the bytes consumed, and the bytes returned must survive the caller overwriting its input buffer afterwards (one buffer in eight is 4 KiB .. 64 KiB+ long); a read that needs more than is there must panic; non-trivial = n within 2 of the bytes available; distinct by (buffer, kind, n)",
 	Quick: 6000, Thorough: 300000,
 	Draw: func(t *rapid.T) SubCase {
-		b := gen.Bytes(false).Draw(t, "buf")
+		// one buffer in eight is long (4 KiB .. beyond 64 KiB: the sizes of record blobs, profiles and zipped batches)
+		b := gen.Bytes(rapid.IntRange(0, 7).Draw(t, "long") == 0).Draw(t, "buf")
+		if len(b) > 64 && len(b) < 4096 && rapid.Bool().Draw(t, "pad") {
+			b = append(b, bytes.Repeat([]byte{0x6b}, 5000)...)
+		}
 		return SubCase{Buf: gen.Hex(b), Kind: rapid.IntRange(0, 4).Draw(t, "kind"), N: rapid.IntRange(-2, len(b)+3).Draw(t, "n")}
 	},
 	Run: func(c SubCase) *pbt.Result {
@@ -854,7 +858,8 @@ var specSub = pbt.Register(pbt.Spec[SubCase]{
 			}
 			buf = append([]byte{byte(c.N)}, payload...)
 		}
-		in := wio.NewDataInputX(append([]byte(nil), buf...))
+		inbuf := append([]byte(nil), buf...)
+		in := wio.NewDataInputX(inbuf)
 		var got []byte
 		p := panics(func() {
 			switch c.Kind {
@@ -883,6 +888,13 @@ var specSub = pbt.Register(pbt.Spec[SubCase]{
 			}
 			if int(in.Available()) != len(payload)-need {
 				return pbt.Fail("Available()=%d after reading %d of %d bytes", in.Available(), need, len(payload))
+			}
+			// the receiver uses its buffer for the next datagram: what a read returned stays what it was (seed C04-s24)
+			for i := range inbuf {
+				inbuf[i] ^= 0xff
+			}
+			if !bytes.Equal(got, payload[:need]) {
+				return pbt.Fail("the %d bytes a read returned changed when the caller overwrote the buffer it had handed to the reader (the next datagram): they are part of that buffer, not the reader's result", need)
 			}
 		}
 		d := need - len(payload)
